@@ -216,10 +216,11 @@ def evaluate(wname, opt, times, layouts):
             err = match_plain(parsed, fr)
         elif wname in ("DFXPWriter", "SinglePositioningDFXPWriter", "LegacyDFXPWriter"):
             t = parsers.parse_ttml(doc)
-            if len(t["divs"]) != 1:
-                err = f"{len(t['divs'])} divs"
+            divs = [d_ for d_ in t["divs"] if d_["ps"] or d_["lang"] == "en-US"]  # a div without cues (language without captions) is not a cue
+            if len(divs) != 1:
+                err = f"{len(divs)} divs"
             else:
-                parsed = [(p["start"], p["end"]) for p in t["divs"][0]["ps"]]
+                parsed = [(p["start"], p["end"]) for p in divs[0]["ps"]]
                 if wname == "DFXPWriter":
                     err = match_plain(parsed, ms)
                 else:
@@ -334,6 +335,26 @@ def evaluate_multi(wname, opt, times, shift, swap):
     return [], tuple(parsed)
 
 
+def evaluate_idle_language(wname, opt, times, layouts, first):
+    """the set also holds a language without captions (before or after the written one): the captions of the other
+    language are written all the same"""
+    real_build = build_set
+
+    def build_with_idle(times_, layouts_):
+        from pycaption import CaptionList, CaptionSet
+
+        cs = real_build(times_, layouts_)
+        cl = cs.get_captions("en-US")
+        return CaptionSet({"fr-FR": CaptionList(), "en-US": cl} if first else {"en-US": cl, "fr-FR": CaptionList()})
+
+    globals()["build_set"] = build_with_idle
+    try:
+        v, out = evaluate(wname, opt, times, layouts)
+    finally:
+        globals()["build_set"] = real_build
+    return [(sig + "/set-has-a-language-without-captions" + ("-first" if first else ""), det) for sig, det in v], out
+
+
 def evaluate_history(wname, opt, times, layouts):
     """the captions of the set were created with other times, printed / formatted, and then given their final times by
     assignment (what adjust_caption_timing-like user code does): the writers must write the final times"""
@@ -433,6 +454,15 @@ def run_shard(d):
             acc.case(("history",) + tuple(map(str, item)), True, out, {"captions_formatted_then_retimed": True, "writer": item[0], "caption_times_us": item[2]})
             for sig, det in v:
                 acc.violation(sig, {"history": True, "item": i}, det)
+            for first in (False, True):
+                if item[1] == "force" or (first and item[0] in ("SRTWriter", "WebVTTWriter", "MicroDVDWriter") and item[1] != "lang"):
+                    continue  # single-language writers write the first language of the set: the idle one must then be named explicitly
+                if first and item[0] == "SAMIWriter" and any(item[2][k + 1][0] < item[2][k][1] or item[2][k + 1] == item[2][k] for k in range(len(item[2]) - 1)):
+                    continue  # a language that is not the set's first is filed by start time: order is only defined for sorted, non-overlapping cues
+                v, out = evaluate_idle_language(*item, first)
+                acc.case(("idle",) + tuple(map(str, item)) + (first,), True, out, {"language_without_captions_in_the_set": "first" if first else "last", "writer": item[0], "caption_times_us": item[2]})
+                for sig, det in v:
+                    acc.violation(sig, {"idle": True, "item": i, "first": first}, det)
         return acc.result()
     if d.get("multi"):
         w = d["multi"]
@@ -474,6 +504,9 @@ def run_shard(d):
 def replay(case):
     if case.get("reuse"):
         return shared.replay(reuse_items(), reuse_eval, case["index"])
+    if case.get("idle"):
+        v, _ = evaluate_idle_language(*reuse_items()[case["item"]], case["first"])
+        return [{"sig": s, "detail": d} for s, d in v]
     if case.get("history"):
         v, _ = evaluate_history(*reuse_items()[case["item"]])
         return [{"sig": s, "detail": d} for s, d in v]
